@@ -74,6 +74,16 @@ class SimWriter:
         self.buf.append(s)
         return len(s)
 
+    def writelines(self, lines) -> None:
+        for line in lines:
+            self.write(line)
+
+    def flush(self) -> None:  # data leaves the process in close(), fragment by fragment
+        pass
+
+    def writable(self) -> bool:
+        return True
+
     def __enter__(self):
         return self
 
@@ -147,6 +157,12 @@ class ParentWriter:
 
     def write(self, s):
         return self.f.write(s)
+
+    def writelines(self, lines):
+        return self.f.writelines(lines)
+
+    def __getattr__(self, name):  # anything else a file object offers
+        return getattr(self.f, name)
 
     def __enter__(self):
         return self
@@ -793,6 +809,12 @@ def gen_tree(rng: random.Random, profile: str) -> Dict[str, Any]:
                 files[rel] = "\n".join(lines)
     if rng.random() < 0.1:
         files["vsm_broken.py"] = "def broken(:\n    pass\n"  # file-level invalid input
+    if profile in ("base", "stagefault") and rng.random() < 0.1:
+        # characters that str.splitlines() treats as line ends but Python's tokenizer does not, inside a comment
+        ch = rng.choice(["\x0c", "\x0b", "\x1c", "\x85", "\u2028"])
+        files["vsm_separators.py"] = (
+            "SEP = 'ab'  # note " + ch + " end of note\n\n\ndef sep(x):\n    if x == None:\n        return SEP\n    else:\n        return 2\n\n\nprint(sep(1))\n"
+        )
     if profile in ("base", "stagefault") and rng.random() < 0.1:
         # a valid file that is not UTF-8: cp1252 bytes under a PEP 263 cookie, with something to fix in it
         files[ENCODED_FILE] = "# -*- coding: cp1252 -*-\n# caf\xe9 \xcd\ndef legacy(x):\n    if x == None:\n        return 1\n    else:\n        return 2\n\n\nprint(legacy(3))\n"
